@@ -527,6 +527,12 @@ pub fn build(
                 "alignment {alignment} is not a power of two for type `{resolvee_path}`"
             );
         }
+        // ... and nothing above 2^29.
+        if alignment > (1 << 29) {
+            anyhow::bail!(
+                "alignment {alignment} is larger than the maximum of 2^29 for type `{resolvee_path}`"
+            );
+        }
 
         // Calculate the minimum required alignment.
         let required_alignment = util::lcm(
